@@ -15,13 +15,15 @@ from .common import (SERIALIZABLE, COMPOSITE, SERVICE, DELIMITED, PRIMITIVE, BOO
                      FLOAT_T, VOID_T, CASTMODE, ATTRIBUTE, FIELD, PADDING, CONSTANT, SATURATED, TRUNCATED, cast_mode_ord)
 from . import c12  # noqa  PrimitiveType / ArithmeticType / FloatType constructors (props include C05)
 from . import c02  # noqa  ArrayType / FixedLengthArrayType / IntegerType / UnsignedIntegerType constructors (props include C05)
-from .names import VALID_NAME, IS_IDENTIFIER, IS_RESERVED
+from . import c03  # noqa  DataSchemaBuilder / DataTypeBuilder class specs and the directive / attribute handler contracts (reused)
+from .names import VALID_NAME, VALID_NAME_RULE, IS_IDENTIFIER, IS_RESERVED
 
 strmodel.enable()
 import os  # noqa: E402
 
-# string obligations: the goal-directed slices drop the regular-expression facts that make them easy; use full queries
-os.environ.setdefault("PYVC_NO_SLICING", "1")
+# string obligations: the goal-directed slices drop the regular-expression facts that make them easy and then run into
+# their time limits; they go from the ground round straight to the full query (all other obligations keep every round)
+os.environ.setdefault("PYVC_STRING_DIRECT", "1")
 
 P = ["C05"]
 LEVEL = "proof"
@@ -42,9 +44,14 @@ class _CheckName:
     params = dict(name=Str)
     raises = {"InvalidNameError": lambda s: NOT(VALID_NAME(s.name))}
 
+    def definitions(s):
+        # valid-name(s) is by definition the Specification's rule (specs/names.py)
+        return {"valid-name": IFF(VALID_NAME(s.name), VALID_NAME_RULE(s.name))}
+
     def post(s):
         return {"accepted-only-if-identifier": IS_IDENTIFIER(s.name),
-                "accepted-only-if-not-reserved": NOT(IS_RESERVED(s.name))}
+                "accepted-only-if-not-reserved": NOT(IS_RESERVED(s.name)),
+                "accepted-only-if-valid": VALID_NAME(s.name)}
 
 
 # ================================================================================================ C05-1 numeric rules
@@ -98,7 +105,7 @@ class _AttributeInit:
 
     def post(s):
         return {"type": s.self._data_type.ref == s.data_type.ref if smt() else s.self._data_type is s.data_type,
-                "name": EQ(s.self._name, s.name)}
+                "name": EQ(s.self._name, s.name), "doc": EQ(s.self._doc, s.doc)}
 
 
 @contract(PADDING + ".__init__", props=P)
@@ -108,7 +115,7 @@ class _PaddingInit:
 
     def post(s):
         return {"type": s.self._data_type.ref == s.data_type.ref if smt() else s.self._data_type is s.data_type,
-                "unnamed": EQ(s.self._name, "")}
+                "unnamed": EQ(s.self._name, ""), "doc": EQ(s.self._doc, s.doc)}
 
 
 NOT_COVERED = []
@@ -187,7 +194,15 @@ def AGG_OK(t, agg):
         return _native_rule(t, agg)
     uf = _eng().uf("ghost!agg_ok", RefSort, z3.IntSort(), z3.IntSort(), z3.BoolSort(), z3.BoolSort())
     d = DEPR(agg)
-    return uf(t.ref, TAG(agg), INNER_TAG(agg), z3.BoolVal(d) if isinstance(d, bool) else d)
+    # a service type is not serializable, hence never a field / variant / element type: part of the definition
+    return AND(NOT(_is(t, "ServiceType")), uf(t.ref, TAG(agg), INNER_TAG(agg), z3.BoolVal(d) if isinstance(d, bool) else d))
+
+
+def SERVICE_NEVER_OK(t, agg):
+    """Lemma (the ServiceType case of the definition of AGG_OK): whatever passed the aggregation check is not a service
+    type.  Exported for specs/c02.py: together with the postcondition `every-attribute-passed-aggregation` of
+    CompositeType.__init__ it gives "no field / variant has a service type" without a precondition."""
+    return IMPLIES(AGG_OK(t, agg), NOT(ISINST(t, "ServiceType")))
 
 
 def BASE_RULE(t, agg):
@@ -210,6 +225,8 @@ def RULE(t, agg):
         return _native_rule(t, agg)
     n = t.cls.name
     base = BASE_RULE(t, agg)
+    if n == "ServiceType":  # a service type is not serializable: never a field, variant or array element
+        return False
     if n == "ByteType":  # byte only as array element
         return AND(_is(agg, "ArrayType"), base)
     if n == "UTF8Type":  # utf8 only as element of variable-length arrays
@@ -237,6 +254,8 @@ def _native_rule(t, agg):
     from pydsdl import _serializable as S
 
     base = not (_native_depr(t) and not _native_depr(agg))
+    if isinstance(t, S.ServiceType):
+        return False
     if isinstance(t, S.ByteType):
         return isinstance(agg, S.ArrayType) and base
     if isinstance(t, S.UTF8Type):
@@ -288,8 +307,8 @@ class _AggBase:
     params = dict(aggregate=ObjOf(SERIALIZABLE))
     returns = FailureK
     self_classes = ["BooleanType", "SignedIntegerType", "UnsignedIntegerType", "FloatType", "ByteType", "UTF8Type", "VoidType",
-                    "FixedLengthArrayType", "VariableLengthArrayType", "StructureType", "UnionType", "DelimitedType",
-                    "ServiceType"]
+                    "FixedLengthArrayType", "VariableLengthArrayType", "StructureType", "UnionType", "DelimitedType"]
+    # (ServiceType overrides the method without calling the base body)
 
     def post(s):
         return {"none-iff-not-deprecated-in-non-deprecated": IFF(IS_NONE(s.result), BASE_RULE(s.self, s.aggregate))}
@@ -313,7 +332,12 @@ _agg_override(BYTE_T, ["ByteType"])
 _agg_override(UTF8_T, ["UTF8Type"])
 _agg_override(VOID_T, ["VoidType"])
 _agg_override(ARRAY, ["FixedLengthArrayType", "VariableLengthArrayType"])
-_agg_override(COMPOSITE, ["StructureType", "UnionType", "ServiceType"])
+_agg_override(COMPOSITE, ["StructureType", "UnionType"])
+if SERVICE + "._check_aggregation" in __import__("pyvc.frontend", fromlist=["load_repo"]).load_repo().functions \
+        and "pydsdl." + SERVICE.replace("pydsdl.", "") + "._check_aggregation" not in REG.contracts:
+    # the override exists from fix d74138f on (specs/c13_types.py states "always a failure" for C13; that module is not
+    # loaded together with this one - same rule, here as the ServiceType case of RULE)
+    _agg_override(SERVICE, ["ServiceType"])
 _agg_override(DELIMITED, ["DelimitedType"])
 
 
@@ -465,12 +489,22 @@ class _CompositeInit:
             "version-stored": EQ(s.self._version, s.version),
             "port-id-stored": EQ(s.self._fixed_port_id, s.fixed_port_id),
             "deprecated-stored": IFF(s.self._deprecated, s.deprecated),
+            "has-parent-stored": IFF(s.self._has_parent_service, s.has_parent_service),
+            # normal return: every attribute passed the aggregation check (the negation of the AggregationError
+            # condition, stated for callers); with SERVICE_NEVER_OK: no attribute has a service type
+            "every-attribute-passed-aggregation": FORALL_IDX(s.attributes, lambda i, a: AGG_OK(a._data_type, s.self)),
         }
 
 
 def _same_seq(a, b):
+    """`a` is an element-wise copy of `b` (same objects in the same order)"""
     if smt():
-        return AND(LEN(a) == LEN(b), FORALL_IDX(a, lambda i, x: x.ref == AT(b, i).ref))
+        if isinstance(a, SymSeq) and isinstance(b, SymSeq):
+            # lists are total index functions plus a length: a copy shares both (the form specs/c02.py uses)
+            return AND(a.length == b.length, a.arr == b.arr)
+        ia = a.items if hasattr(a, "items") else list(a)
+        ib = b.items if hasattr(b, "items") else list(b)
+        return AND(len(ia) == len(ib), *[x.ref == y.ref for x, y in zip(ia, ib)])
     return len(a) == len(b) and all(x is y for x, y in zip(a, b))
 
 
@@ -497,10 +531,12 @@ def _inv_unique_names(s):
 _inv_unique_names.kinds = {"used_names": StrSet}
 
 
-# ================================================================================================ native extra check
-def _check_service_field(eng, tier, seed):
-    """Every rejection is an InvalidDefinitionError: a composite whose field has a service type (not serializable) must
-    be rejected by the static rules, not crash in the layout computation.  Native, concrete (not counted as proof)."""
+# ================================================================================================ native regression check
+def _check_service_type_rejected(eng, tier, seed):
+    """Regression check for fix d74138f (must pass): a service type used as a field type, union variant or array element
+    is rejected by a static rule with an InvalidDefinitionError - AggregationError from CompositeType.__init__,
+    InvalidElementTypeError from the array constructors - and never reaches the layout computation (TypeError).
+    Native, concrete (not counted as proof)."""
     from pathlib import Path
     from pydsdl import _serializable as S
     from pydsdl._error import InvalidDefinitionError
@@ -512,26 +548,37 @@ def _check_service_field(eng, tier, seed):
                                fixed_port_id=None, source_file_path=Path("ns/Svc.1.0.dsdl"), has_parent_service=True)
 
     svc = S.ServiceType(part("Request"), part("Response"), None)
-    out = {"name": "service type as field type", "violations": []}
-    try:
-        S.StructureType(name="ns.Msg", version=S.Version(1, 0), attributes=[S.Field(svc, "x")], deprecated=False,
-                        fixed_port_id=None, source_file_path=Path("ns/Msg.1.0.dsdl"), has_parent_service=False)
-        observed = "accepted"
-    except InvalidDefinitionError as ex:
-        observed = "rejected: %s" % type(ex).__name__
-    except Exception as ex:  # noqa
-        observed = "crashed: %s: %s" % (type(ex).__name__, ex)
-        out["violations"].append({
-            "name": "_composite.CompositeType.__init__/native#non-serializable-field-rejected-by-a-rule",
-            "detail": "Field(<ServiceType ns.Svc.1.0>, 'x') passes every check of CompositeType.__init__ and the "
-                      "constructor of the structure then raises %s" % type(ex).__name__,
-            "concrete": {"function": "pydsdl._serializable._composite.StructureType.__init__",
-                         "input": "StructureType('ns.Msg', 1.0, [Field(ServiceType(ns.Svc.1.0), 'x')])", "observed": observed}})
-    out["observed"] = observed
+
+    def comp(cls, attrs):
+        return cls(name="ns.Msg", version=S.Version(1, 0), attributes=attrs, deprecated=False, fixed_port_id=None,
+                   source_file_path=Path("ns/Msg.1.0.dsdl"), has_parent_service=False)
+
+    cases = {
+        "field": (lambda: comp(S.StructureType, [S.Field(svc, "x")]), "AggregationError"),
+        "variant": (lambda: comp(S.UnionType, [S.Field(svc, "x"), S.Field(u8, "y")]), "AggregationError"),
+        "fixed-array-element": (lambda: S.FixedLengthArrayType(svc, 2), "InvalidElementTypeError"),
+        "variable-array-element": (lambda: S.VariableLengthArrayType(svc, 2), "InvalidElementTypeError"),
+    }
+    out = {"name": "service type rejected by a static rule", "violations": [], "observed": {}}
+    for k, (make, expected) in cases.items():
+        try:
+            make()
+            observed = "accepted"
+        except InvalidDefinitionError as ex:
+            observed = type(ex).__name__
+        except Exception as ex:  # noqa
+            observed = "crashed: %s" % type(ex).__name__
+        out["observed"][k] = observed
+        if observed != expected:
+            out["violations"].append({
+                "name": "_composite.CompositeType.__init__/native#service-type-as-%s-rejected-by-a-rule" % k,
+                "detail": "expected %s, observed %s" % (expected, observed),
+                "concrete": {"function": "pydsdl._serializable", "input": "ServiceType(ns.Svc.1.0) used as " + k,
+                             "observed": observed}})
     return out
 
 
-EXTRA_CHECKS = [_check_service_field]
+EXTRA_CHECKS = [_check_service_type_rejected]
 
 
 # ================================================================================================ C05-4 regulated port-IDs
@@ -545,6 +592,7 @@ def IS_STANDARD_NS(ns):
 
 def REGULATED(port_id, ns, service):
     """fixed port-IDs within the regulated ranges of the root namespace"""
+    port_id = VAL(port_id)  # an Optional known to be present at the call site
     if service:
         return ITE(IS_STANDARD_NS(ns), AND(384 <= port_id, port_id <= 511), AND(256 <= port_id, port_id <= 383))
     return ITE(IS_STANDARD_NS(ns), AND(7168 <= port_id, port_id <= 8191), AND(6144 <= port_id, port_id <= 7167))
@@ -569,32 +617,9 @@ class _RegulatedService:
 
 
 # ================================================================================================ C05-4 _make_composite
-DSB = "pydsdl._data_schema_builder.DataSchemaBuilder"
-SMODE = "pydsdl._data_schema_builder.SerializationMode"
-DMODE = "pydsdl._data_schema_builder.DelimitedSerializationMode"
-SEALED_MODE = "pydsdl._data_schema_builder.SealedSerializationMode"
-DTB = "pydsdl._data_type_builder.DataTypeBuilder"
-
-
-@class_spec(DSB)
-class _SchemaBuilderSpec:
-    fields = dict(_serialization_mode=Opt(ObjOf(SMODE)), _is_union=Bool, _doc=Str)
-
-
-@class_spec(DMODE)
-class _DelimitedModeSpec:
-    fields = dict(extent=Int)
-
-
-inline_ok(DSB + ".union", DSB + ".serialization_mode", DSB + ".doc")
-
-
-@contract(DSB + ".attributes", props=P)
-class _SchemaAttributes:
-    """Used, not verified: the attributes collected so far (fields then constants) - statement commit protocol, C03."""
-    returns = SeqOf(ObjOf(ATTRIBUTE))
-    verify = False
-    assumed = "DataSchemaBuilder.attributes returns the collected attributes (C03); only passed on to the constructors here"
+DSB, SMODE, DMODE, SEALED_MODE, DTB = c03.DSB, c03.SMODE, c03.DELIM_MODE, c03.SEALED_MODE, c03.DTB
+# class specifications of DataSchemaBuilder / DataTypeBuilder / the serialization modes and the contract of
+# DataSchemaBuilder.attributes (fields then constants; verified under C03): specs/c03.py
 
 
 def _extent_given(r, mode, delimited):
@@ -609,7 +634,7 @@ def _extent_given(r, mode, delimited):
 class _MakeComposite:
     """exactly one of @sealed / @extent per schema: a schema without serialization mode is rejected; @extent wraps the
     schema into a delimited type with that extent, @sealed leaves it as it is; @union selects the union type."""
-    params = dict(builder=ObjOf(DSB), name=Str, version=VersionK, deprecated=Bool, fixed_port_id=Opt(Int),
+    params = dict(builder=c03.MutObjOf(DSB), name=Str, version=VersionK, deprecated=Bool, fixed_port_id=Opt(Int),
                   source_file_path=Str, has_parent_service=Bool)
     returns = ObjOf(COMPOSITE)
     raises = {
@@ -772,3 +797,147 @@ NATIVE.add(VOID_T + ".__init__", _gen_width, _build_void)
 NATIVE.add(SERIALIZABLE + "._check_aggregation@dynamic", _gen_agg, _build_agg)
 NATIVE.add(PIR + "is_valid_regulated_subject_id", _gen_reg, _build_reg("is_valid_regulated_subject_id"))
 NATIVE.add(PIR + "is_valid_regulated_service_id", _gen_reg, _build_reg("is_valid_regulated_service_id"))
+
+
+# ================================================================================================ C05-4 directive handlers
+# Proved in specs/c03.py with two-sided rules (reused, not restated; "C05" is added to their props here so that the C05 run
+# re-verifies them against the name / attribute contracts of this module):
+#   on_directive            InvalidDirectiveError iff unknown directive name, or @sealed/@extent when the section already has
+#                           a serialization mode (exactly one of them per section), @sealed with / @extent without an
+#                           expression or with a non-rational one, @union / @deprecated with an expression, duplicated, or
+#                           after the first attribute of the section, @deprecated in the response section, @assert without
+#                           a boolean; AssertionCheckFailureError iff the asserted boolean is false
+#   on_field / on_constant / on_padding_field   InvalidDirectiveError iff the section's mode is already delimited
+#                           (@extent only after the last attribute)
+#   on_service_response_marker                  InvalidDefinitionError iff there are two sections already
+C03_HANDLERS = [DTB + ".on_directive", DTB + ".on_field", DTB + ".on_constant", DTB + ".on_padding_field",
+                DTB + ".on_service_response_marker"]
+for _q in C03_HANDLERS:
+    if "C05" not in REG.contracts[_q].props:
+        REG.contracts[_q].props.append("C05")
+
+RDF = c03.RDF
+DSDLFILE = "pydsdl._dsdl.DSDLFile"
+
+
+def _def_ghost(name, sort):
+    def value(d):
+        if smt():
+            return _eng().uf("ghost!definition!" + name, RefSort, sort)(d.ref)
+        return getattr(d, name)
+
+    return value
+
+
+DEF_NAME = _def_ghost("full_name", z3.StringSort())
+DEF_MAJOR = _def_ghost("major", z3.IntSort())
+DEF_MINOR = _def_ghost("minor", z3.IntSort())
+
+
+def _def_iface(member, kind, post):
+    for cls in (DSDLFILE, RDF):
+        q = cls + "." + member
+        if ("pydsdl." + q if not q.startswith("pydsdl.") else q) in REG.contracts:
+            continue  # another specification module loaded in this process already states it
+
+        @contract(q, props=P)
+        class _DefMember:
+            returns = kind
+            verify = False
+            assumed = ("interface: name / version / fixed port-ID of a definition are fixed attributes of the definition "
+                       "object (established from the file name by DSDLDefinition.__init__: C15)")
+
+        if post is not None:
+            _DefMember.post = staticmethod(post)
+
+
+_def_iface("full_name", Str, lambda s: {"the-name": EQ(s.result, DEF_NAME(s.self))})
+_def_iface("version", VersionK, None)
+_def_iface("fixed_port_id", Opt(Int), lambda s: {"the-port-id": _opt_same(s.result, DEF_PORT_ID(s.self))})
+
+
+def DEF_PORT_ID(d):
+    if smt():
+        from pyvc.values import OptV
+
+        e = _eng()
+        return OptV(e.uf("ghost!definition!port!none", RefSort, z3.BoolSort())(d.ref),
+                    e.uf("ghost!definition!port!val", RefSort, z3.IntSort())(d.ref))
+    return d.fixed_port_id
+
+
+def _opt_same(a, b):
+    if smt():
+        return AND(IFF(IS_NONE(a), IS_NONE(b)), IMPLIES(NOT(IS_NONE(a)), lambda: VAL(a) == VAL(b)))
+    return a == b
+
+
+def ROOT_NS(t):
+    """the root namespace of a composite: the first component of its full name"""
+    return AT(COMPONENTS(t._name), 0) if smt() else t.full_name.split(".")[0]
+
+
+@contract(COMPOSITE + ".root_namespace", props=P)
+class _RootNamespace:
+    returns = Str
+    verify = False
+    assumed = ("CompositeType.root_namespace is name_components[0], and name_components is full_name.split('.') "
+               "(assigned once in CompositeType.__init__); the list field itself is not modelled")
+
+    def post(s):
+        return {"first-component": EQ(s.result, ROOT_NS(s.self))}
+
+
+_SERVICE_ERRORS = {"InvalidNameError": None, "InvalidVersionError": None, "AttributeNameCollisionError": None,
+                   "InvalidFixedPortIDError": None, "AggregationError": None}
+
+
+@contract(SERVICE + ".__init__", props=P)
+class _ServiceInitAssumed:
+    """Used, not verified: a service is a composite whose attributes are its request / response parts; the port-ID is
+    passed to CompositeType.__init__ unchanged (service-ID range checked there, verified above for a ServiceType receiver)."""
+    params = dict(request=ObjOf(COMPOSITE), response=ObjOf(COMPOSITE), fixed_port_id=Opt(Int))
+    verify = False
+    assumed = ("ServiceType.__init__: consistency check of the two parts (ValueError, an internal error), then "
+               "CompositeType.__init__(name=request.full_namespace, ..., fixed_port_id=fixed_port_id); body not verified "
+               "(needs a model of full_namespace / str.join); only `port-ID stored as given` and the name relation are used")
+    raises = dict(_SERVICE_ERRORS, ValueError=None)
+
+    def post(s):
+        return {"port-id-stored": _opt_same(s.self._fixed_port_id, s.fixed_port_id),
+                "parts-stored": AND(s.self._request_type.ref == s.request.ref, s.self._response_type.ref == s.response.ref)
+                if smt() else (s.self._request_type is s.request and s.self._response_type is s.response)}
+
+
+def _mode_known(sec):
+    m = sec._serialization_mode
+    return OR(IS_NONE(m), lambda: ISINST(VAL(m), "DelimitedSerializationMode", "SealedSerializationMode"))
+
+
+@contract(DTB + ".finalize", props=P)
+class _Finalize:
+    """Regulated port-ID ranges unless explicitly allowed; one or two sections -> message or service; a section without
+    @sealed / @extent is rejected.  The regulated-range rule is stated on the accepted type (normal return); the
+    exceptional direction is one-sided (raised only when unregulated IDs are not allowed) because the constructors'
+    contracts of specs/c02.py do not say that the port-ID / name of the definition are the ones stored."""
+    instances = c03._TWO_SECTION_INSTANCES
+    cover_instances = True  # both the message and the service case must be able to return (ValueError is merely allowed)
+    returns = ObjOf(COMPOSITE)
+    raises = dict(_SERVICE_ERRORS, MalformedUnionError=None, InvalidExtentError=None, **{
+        "MissingSerializationModeError": lambda s: OR(*[IS_NONE(sec._serialization_mode) for sec in c03.SECS(s.self)]),
+    })
+    raises_if = {"UnregulatedFixedPortIDError": lambda s: NOT(s.self._allow_unregulated_fixed_port_id)}  # one-sided
+    may_raise = ["ValueError"]  # ServiceType.__init__'s internal consistency error (see _ServiceInitAssumed)
+
+    def pre(s):
+        return {"mode-is-sealed-or-delimited": AND(*[_mode_known(sec) for sec in c03.SECS(s.self)])}
+
+    def post(s):
+        r = s.result
+        n = len(c03.SECS(s.self))
+        return {
+            "service-iff-two-sections": IFF(ISINST(r, "ServiceType"), n == 2) if smt() else (type(r).__name__ == "ServiceType") == (n == 2),
+            "regulated-unless-allowed": IMPLIES(NOT(s.self._allow_unregulated_fixed_port_id), lambda: OR(
+                IS_NONE(r._fixed_port_id),
+                lambda: REGULATED(VAL(r._fixed_port_id), ROOT_NS(r), n == 2))),
+        }
